@@ -189,9 +189,27 @@ def fam(m, sp):
     return sorted(m.family(sp), key=lambda s: m.lex[s].order)
 
 
+def _sorted(v):
+    import json
+    return sorted(v, key=lambda x: json.dumps(x, sort_keys=True, default=str))
+
+
 def mask_ili(o):
+    """for the history-vs-fresh comparison: the ILI inventory is masked and every list is compared as a multiset - the
+    two databases installed the lexicons in different orders, and the order between contributions of different
+    lexicons is what the statement sets aside (order inside one lexicon is checked against the model)"""
     import copy
     o = copy.deepcopy(o)
+    for kind in ('words', 'senses', 'synsets'):
+        for d in o[kind].values():
+            if isinstance(d, dict):
+                for k_, v in list(d.items()):
+                    if isinstance(v, list) and k_ != 'ili':
+                        if k_ == 'forms':
+                            for f in v:
+                                f['tags'] = _sorted(f['tags'])
+                                f['prons'] = _sorted(f['prons'])
+                        d[k_] = _sorted(v)
     for d in o['synsets'].values():
         if isinstance(d, dict) and d.get('ili') and d['ili'][0] is not None:
             d['ili'] = [d['ili'][0]]
